@@ -1005,6 +1005,16 @@ def check(pid, tier, seed):
     for f in os.listdir(workdir):
         os.remove(os.path.join(workdir, f))
     configs = cfg.thorough_configs if tier == "thorough" else cfg.configs
+    cfg_extent = None
+    if pid == "C20":
+        # the model has one configuration parameter because the source has one cfg(feature) inside a function body; when the
+        # sources say otherwise every feature combination is compared, also in the quick tier
+        import cfgscan
+        occ, changed = cfgscan.extent(R.REPO)
+        cfg_extent = {"occurrences": occ, "differs_from_modelled_extent": changed}
+        if changed:
+            configs = cfg.thorough_configs
+            log("  cfg(feature) extent differs from the modelled one: comparing all %d feature builds" % len(configs))
     harnesses = {}
     with R.Lock():
         tabh, out = R.build_harness(ALL_FEATURES)      # the translator needs the tables (feature likelysubtags)
@@ -1252,6 +1262,7 @@ def check(pid, tier, seed):
             "impl_vs_oracle_failures": len(oracle_failures),
             "known_findings_printed": len(seen_known),
             "known_finding_hits": known_hits,
+            "cfg_feature_extent": cfg_extent,
             "exhaustive": False,
         },
         "assumptions": [cfg.note] if cfg.note else [],
